@@ -929,6 +929,9 @@ func (e *SpecEnv) undefined(f Expr, idx []Expr, isRes bool) Val {
 		if v, ok := e.vars[id.Name].(*FuncParam); ok {
 			fp = v
 		}
+		if c, ok := e.freeCells[id.Name]; ok && fp == nil && e.st != nil {
+			fp, _ = e.st.cells[c].(*FuncParam)
+		}
 		if fp != nil && fp.Sig != nil {
 			tup := fp.Sig.Params()
 			if isRes {
